@@ -99,6 +99,10 @@ func c14Packet(c *Ctx, stream string, p []byte) {
 	}
 	c.Hit("served:" + strings.Fields(got)[0])
 	c.Op(stream, fmt.Sprintf("serve %s %d %d %d %d %d %s", b01(hdrOk), bits, qd, an, ns, ar, b01(decodeOk)), got, hdrOk)
+	// the same decision with the model's own decoder deciding whether the message decodes
+	if len(p) <= 2048 {
+		c.OpK(stream, "serve.packet "+strOrDash(hx(p)), got, hdrOk, "serve-packet")
+	}
 	// exactly once / never both
 	c.Pred(stream, "exactly-once", in, s.handlerCalls <= 1 && !(s.handlerCalls == 1 && (len(s.writes) > 0 || s.invalidCalls > 0)), got, "handler xor (reply|ignore|invalid)", hdrOk)
 	if s.handlerCalls == 1 {
